@@ -163,7 +163,7 @@ def check_case(acc, case):
     fam = case["fam"]
     key = {"fam": fam}
     try:
-        with core.case_timer():
+        with core.case_timer(case.get("timeout", core.CASE_TIMEOUT_S)):
             n, p, msl, M, g = case["n"], case.get("p", 1), case["msl"], case["M"], case["growth"]
             if fam == "grid":
                 sc = EncodingChangeScore(base=64)
@@ -449,7 +449,7 @@ def long_cases(tier):
     # very long single cases (block boundaries of a chunked implementation fall inside the data)
     for n in (1200,) if tier == "quick" else (1200, 5000):
         for score, msl, M, g, ts in (("CUSUM", 5, 200, 1.5, 1.0), ("L2cost", 10, 300, 2.0, 2.0)):
-            yield {"fam": "data", "x": util.very_long_series(n), "n": n, "score": score, "msl": msl, "M": M, "growth": g, "thr_scale": ts}
+            yield {"fam": "data", "x": util.very_long_series(n), "n": n, "score": score, "msl": msl, "M": M, "growth": g, "thr_scale": ts, "timeout": 900}
     for n in (12, 16, 24) if tier == "quick" else (12, 16, 24, 32, 40):
         for msl, M, g in ((1, 8, 1.5), (4, n, 1.5), (5, 12, 2.0), (2, n, 1.25)):
             if n < 2 * msl or M < 2 * msl:
